@@ -54,7 +54,7 @@ fn vote_of(v: usize, kind: VK, slot: u64, hash: Option<&BlockHash>) -> Vote {
     }
 }
 
-pub fn run(max_windows: u64) -> WorldOutcome {
+pub fn run(max_windows: u64, honest: bool) -> WorldOutcome {
     let n = 5 + kernel::choose(E, 3) as usize; // 5..=7, node 4 is the real one and never leads
     let real = 4usize;
     let windows = 1 + kernel::choose(E, max_windows.min(3)); // windows 0..=windows are led by validators 0..=3
@@ -100,14 +100,23 @@ pub fn run(max_windows: u64) -> WorldOutcome {
         let mut built: BTreeMap<Blk, wire::BuiltBlock> = BTreeMap::new();
         // calm environments follow the protocol (one block per slot on the chain, everybody votes on
         // time) except in contested slots, so that the node is on the happy path when trouble starts
-        let calm = kernel::choose(E, 3) == 1;
+        let calm = honest || kernel::choose(E, 3) == 1;
+        // in the honest environment some validators' votes are slow (still within the delay bound of
+        // the slot's other traffic), so that blocks overtake the certificates of their parents
+        let slow_voters: Vec<bool> = (0..n).map(|_| honest && kernel::choose(E, 3) == 1).collect();
         if calm {
             kernel::fault("calm_environment_with_contested_slots");
         }
         for s in 1..=last_slot {
             let t_s = 300 + 450 * s;
             let leader = ((s / 4) % n as u64) as usize;
-            let nblocks = if calm { [1u64, 1, 1, 2][kernel::choose(E, 4) as usize] } else { [1u64, 1, 1, 2, 0][kernel::choose(E, 5) as usize] };
+            let nblocks = if honest {
+                1
+            } else if calm {
+                [1u64, 1, 1, 2][kernel::choose(E, 4) as usize]
+            } else {
+                [1u64, 1, 1, 2, 0][kernel::choose(E, 5) as usize]
+            };
             // a *contested* slot: the leader equivocates, the node gets the first block by dissemination,
             // a large minority notarizes the second one early, the first one's certificate comes late
             let contested = nblocks == 2 && chain_tip != (0, 0) && chain_tip.0 < s && (calm || kernel::choose(E, 2) == 1);
@@ -158,8 +167,9 @@ pub fn run(max_windows: u64) -> WorldOutcome {
                     if v == real {
                         continue;
                     }
-                    script.push((t_s + 50 + kernel::choose(E, 200), In::Vote { v, kind: VK::Notar, slot: s, tag: 1 }));
-                    script.push((t_s + 300 + kernel::choose(E, 200), In::Vote { v, kind: VK::Final, slot: s, tag: 0 }));
+                    let slow = if slow_voters[v] { 250 + kernel::choose(E, 250) } else { 0 };
+                    script.push((t_s + 50 + slow + kernel::choose(E, 200), In::Vote { v, kind: VK::Notar, slot: s, tag: 1 }));
+                    script.push((t_s + 300 + slow + kernel::choose(E, 200), In::Vote { v, kind: VK::Final, slot: s, tag: 0 }));
                 }
                 continue;
             }
@@ -638,6 +648,84 @@ pub fn run(max_windows: u64) -> WorldOutcome {
         if kernel::has_violation() {
             break;
         }
+    }
+    if honest && cutoff == u64::MAX && !kernel::has_violation() {
+        // C02, node-local: in an environment that follows the protocol (one block per slot extending the
+        // chain, delivered within 100 ms of its nominal time; every other validator votes notar and
+        // final within the delay bound) the node must notarize and vote to finalize every block, and
+        // never cast a skip or fallback vote: each block, its parent's certificate and the node's
+        // timeouts leave several hundred milliseconds of slack in every order these events can take
+        for slot in 1..=last_slot {
+            let st = own.get(&slot).cloned().unwrap_or_default();
+            let describe = || {
+                own_votes.iter().filter(|v| v.3 + 1 >= slot && v.3 <= slot + 1).map(|(at, _, k, sl, _)| format!("{at}ms {k:?} s{sl}")).collect::<Vec<_>>().join(", ")
+            };
+            if st.skip || st.sf || !st.nf.is_empty() {
+                kernel::violation(
+                    "C02",
+                    "node-local:skipped-a-correct-leaders-block",
+                    format!("honest environment: the node cast a skip/fallback vote in slot {slot} ({st:?}); its votes around that slot: {}", describe()),
+                );
+                break;
+            }
+            // a slot that others finalized before the node could act needs no vote from it
+            let t_block = deliveries.iter().filter_map(|d| match &d.what { In::Block { b, .. } if *b == (slot, 1) => Some(d.at_ms), _ => None }).min();
+            let Some(t_block) = t_block else { continue };
+            let blocks_parent = |sl: u64| deliveries.iter().find_map(|d| match &d.what { In::Block { b, parent } if *b == (sl, 1) => Some(*parent), _ => None });
+            let finalized_by = |t: u64| {
+                let (v, _, _) = knowledge(t);
+                v.ff.keys().any(|sl| *sl >= slot) || v.fin.iter().any(|sl| *sl >= slot)
+            };
+            // when could the node notarize: block delivered, previous slot notarized by it (or, in a
+            // window's first slot, the parent ready)
+            let t_prev = if slot % 4 == 0 || slot == 1 {
+                Some(t_block)
+            } else {
+                own_votes.iter().find(|v| v.3 == slot - 1 && v.2 == VK::Notar).map(|v| v.0.max(t_block))
+            };
+            let Some(t_can) = t_prev else { continue };
+            if st.notar != Some(1) {
+                // in a window's first slot the node also needs the parent to be ready
+                let t_can = if slot % 4 == 0 {
+                    let parent = blocks_parent(slot);
+                    let mut times: Vec<u64> = deliveries.iter().map(|d| d.at_ms).chain(own_votes.iter().map(|v| v.0 + 1)).filter(|t| *t >= t_can).collect();
+                    times.sort_unstable();
+                    times.dedup();
+                    match times.into_iter().find(|t| {
+                        let (v, _, _) = knowledge(*t);
+                        let fin = v.finality();
+                        parent.is_some_and(|p| v.ready_parents(&fin, slot).contains(&p))
+                    }) {
+                        Some(t) => t,
+                        None => continue, // the parent never became ready at the node: nothing is owed
+                    }
+                } else {
+                    t_can
+                };
+                if !finalized_by(t_can + 50) {
+                    kernel::violation(
+                        "C02",
+                        "node-local:block-not-notarized",
+                        format!("honest environment: the node never notarized the block of slot {slot} (delivered at {t_block} ms, votable from {t_can} ms, nobody had finalized the slot by then); its votes around that slot: {}", describe()),
+                    );
+                    break;
+                }
+                continue;
+            }
+            if !st.fin {
+                let t_notar = own_votes.iter().find(|v| v.3 == slot && v.2 == VK::Notar).map_or(t_can, |v| v.0);
+                // the notarization certificate forms from the others' votes, all delivered within 750 ms of the slot's nominal time
+                if !finalized_by(t_notar.max(t_block) + 1_500) {
+                    kernel::violation(
+                        "C02",
+                        "node-local:block-not-voted-final",
+                        format!("honest environment: the node notarized the block of slot {slot} but never voted to finalize it although nobody else had finalized the slot by then; its votes around that slot: {}", describe()),
+                    );
+                    break;
+                }
+            }
+        }
+        kernel::probe("c02_solo_honest_environment_checked");
     }
     kernel::probe_n("c05_solo_notar_votes", notar_votes);
     kernel::probe_n("c05_solo_final_votes", final_votes);
